@@ -373,7 +373,7 @@ Proof.
   destruct (is_kw "joined" j) eqn:Ej; [|discriminate]. cbn [negb] in H.
   destruct (loop (joined_step cx insts cabs) false [] jargs) as [w|] eqn:J; [|discriminate].
   destruct (loop net_step false tt rest); [|discriminate].
-  destruct (_ || _); [discriminate|].
+  destruct (big_index _ _); [discriminate|].
   destruct (read_net cabs (nm_ident n, nm_name n, w)) as [c'|] eqn:R; [|discriminate]. inversion H; subst.
   exists (nm_ident n, nm_name n, w). split; auto.
   exists nd, j, jargs, rest, (nm_orig n). repeat split; auto.
